@@ -3,8 +3,11 @@
    Models: Metrics/StoreAdd.v (Store.Add), Run/Loader.v (CompileAndRun,
    UnloadProgram, line fan-out, Store.Gc).  Every theorem holds for both values
    of the two repair switches, for the OmitMetricSource option, and for every
-   compiler and every VM behaviour (the [compile] and [vmstep] oracles). *)
-From V Require Import Metrics.StoreAdd Run.Loader Proofs.StoreAddProofs Proofs.LoaderIsolation.
+   compiler and every VM behaviour (the [compile] and [vmstep] oracles).
+   Second half (Run/Fanout.v, Proofs/FanoutProofs.v): the fan-out of the lines
+   as blocking hand-overs in which any program may be arbitrarily slow. *)
+From V Require Import Metrics.StoreAdd Run.Loader Run.Fanout Proofs.StoreAddProofs Proofs.LoaderIsolation
+  Proofs.FanoutProofs.
 Local Open Scope N_scope.
 
 (* Store.Add of a metric of program p leaves the entries of every other
@@ -71,7 +74,105 @@ Proof.
     repeat (destruct Ie as [<-|Ie]; [reflexivity|]); destruct Ie.
 Qed.
 
+(* ---- the fan-out under an arbitrary schedule (Run/Fanout.v) ---- *)
+
+(* At every moment of every schedule -- whoever is slow, for however long --
+   the lines handed to a program p so far are a prefix of the line stream (no
+   line skipped, none twice, none out of order), all of them finished except
+   possibly the last, and p's record is the one the sequential model gives
+   for the finished ones.  A program without a running version is handed
+   nothing. *)
+Theorem C06_fanout_prefix :
+  forall vmstep (c1 c2 omit : bool) compile (st : state) (ls : list lstamp) (sch : list ev) (p : bytes),
+    let fs := frun vmstep sch (finit st ls) in
+    exists dn pend rest,
+      recv_of p fs = dn ++ pend /\ (length pend <= 1)%nat /\
+      (is_running p st = true -> recv_of p fs ++ rest = ls) /\
+      (is_running p st = false -> recv_of p fs = []) /\
+      getp p (fs_st fs) = getp p (run_from c1 c2 omit compile vmstep st (lines_ops dn)).
+Proof. exact fanout_prefix. Qed.
+
+(* When a schedule has settled (input drained, nothing in flight): every
+   running program was handed every line exactly once, in order, and the state
+   is the one of the sequential model (same store index, same line count, same
+   record for every program). *)
+Theorem C06_fanout_exactly_once :
+  forall vmstep (c1 c2 omit : bool) compile (st : state) (ls : list lstamp) (sch : list ev),
+    let fs := frun vmstep sch (finit st ls) in
+    settled fs = true ->
+    (forall p, is_running p st = true -> recv_of p fs = ls) /\
+    (forall p, is_running p st = false -> recv_of p fs = []) /\
+    st_equiv (fs_st fs) (run_from c1 c2 omit compile vmstep st (lines_ops ls)).
+Proof. exact fanout_exactly_once. Qed.
+
+(* The blocking hand-overs never block for good: whatever a schedule has
+   reached, letting every vm finish ([drain]) leads to a settled state. *)
+Theorem C06_fanout_never_stuck :
+  forall vmstep (st : state) (ls : list lstamp) (sch : list ev),
+    settled (frun vmstep (sch ++ drain (frun vmstep sch (finit st ls))) (finit st ls)) = true.
+Proof. exact fanout_never_stuck. Qed.
+
+(* The isolation theorem for histories in which lines arrive in bursts and are
+   processed under arbitrary schedules ([HBurst ls sch]; each burst has settled
+   before the next load/unload/GC): P's projection equals that of P's own
+   sequential run -- the other programs' loads and unloads removed, nobody
+   slow -- over the same lines. *)
+Theorem C06_isolation_slow :
+  forall vmstep (c1 c2 omit : bool) compile (P : bytes) (hs : list hop),
+    settle_all vmstep c1 c2 omit compile st_empty hs = true ->
+    never_clashes c1 c2 omit compile vmstep P st_empty (flatten hs) ->
+    fst (proj P (hrun vmstep c1 c2 omit compile st_empty hs)) =
+    fst (proj P (run_from c1 c2 omit compile vmstep st_empty (restrict P (flatten hs)))) /\
+    forall name,
+      snd (proj P (hrun vmstep c1 c2 omit compile st_empty hs)) name =
+      snd (proj P (run_from c1 c2 omit compile vmstep st_empty (restrict P (flatten hs)))) name.
+Proof. exact isolation_slow. Qed.
+
+(* Two histories with the same steps and lines end in the same state whatever
+   their schedules were. *)
+Theorem C06_schedule_irrelevant :
+  forall vmstep (c1 c2 omit : bool) compile (hs hs' : list hop),
+    flatten hs = flatten hs' ->
+    settle_all vmstep c1 c2 omit compile st_empty hs = true ->
+    settle_all vmstep c1 c2 omit compile st_empty hs' = true ->
+    st_equiv (hrun vmstep c1 c2 omit compile st_empty hs) (hrun vmstep c1 c2 omit compile st_empty hs').
+Proof. exact schedule_irrelevant. Qed.
+
+(* non-vacuity: q is slow.  It still holds line 0 when the loop wants to hand
+   it line 1 (two hand-overs block, p waits behind q), later p is the busy one;
+   the schedule settles, p has been handed the three lines, and the hypothesis
+   of C06_isolation_slow holds for p. *)
+Definition ex_burst : list lstamp := [(0, 3%Z); (1, 3%Z); (2, 3%Z)].
+Definition ex_sch : list ev :=
+  [ENext [ex_q; ex_p]; EHand; EHand; EDone ex_p;
+   ENext [ex_q; ex_p]; EHand; EHand; EDone ex_q; EHand; EHand;
+   ENext [ex_p; ex_q]; EHand; EDone ex_p; EHand; EHand; EDone ex_q; EHand; EDone ex_p; EDone ex_q].
+Definition ex_hs : list hop := [HOp (OLoad ex_q 0); HOp (OLoad ex_p 0); HBurst ex_burst ex_sch].
+
+Example C06_isolation_slow_applies :
+  settle_all ex_vmstep true true false ex_compile st_empty ex_hs = true /\
+  never_clashes true true false ex_compile ex_vmstep ex_p st_empty (flatten ex_hs) /\
+  (let st := hrun ex_vmstep true true false ex_compile st_empty [HOp (OLoad ex_q 0); HOp (OLoad ex_p 0)] in
+   (* the blocked hand-overs: after 7 events q has one line, p one, line 1 is waiting *)
+   let fs := frun ex_vmstep (firstn 7 ex_sch) (finit st ex_burst) in
+   fs_todo fs = [ex_q; ex_p] /\ recv_of ex_p fs = [(0, 3%Z)] /\
+   recv_of ex_p (frun ex_vmstep ex_sch (finit st ex_burst)) = ex_burst).
+Proof.
+  split; [vm_compute; reflexivity|]. split; [|vm_compute; auto].
+  change (flatten ex_hs) with [OLoad ex_q 0; OLoad ex_p 0; OLine 0 3; OLine 1 3; OLine 2 3].
+  cbn [never_clashes]. repeat split; try (intros E; discriminate E).
+  intros _ o d I Hh e Ie. vm_compute in I.
+  destruct I as [I|[I|[]]]; injection I as <- <-; vm_compute in Ie;
+    repeat (destruct Ie as [<-|Ie]; [reflexivity|]); destruct Ie.
+Qed.
+
 Print Assumptions C06_add_frame.
 Print Assumptions C06_refusal_only_kind.
 Print Assumptions C06_isolation.
 Print Assumptions C06_isolation_applies.
+Print Assumptions C06_fanout_prefix.
+Print Assumptions C06_fanout_exactly_once.
+Print Assumptions C06_fanout_never_stuck.
+Print Assumptions C06_isolation_slow.
+Print Assumptions C06_schedule_irrelevant.
+Print Assumptions C06_isolation_slow_applies.
